@@ -63,7 +63,7 @@ class Keyless(_NoReplay):
         yield "sample_shape_and_arguments_forwarded", self.calls[0][2] == (2,) and self.calls[0][1] == (self.a,) and set(self.calls[0][3]) == {"scale"}
 
 
-@contract("genjax.pjax:FlatSamplerCache.get_flat_sampler", ["C06", "C07"])
+@contract("genjax.pjax:FlatSamplerCache.get_flat_sampler", ["C06", "C07", "C13"])
 class FlatCache(_NoReplay):
     """the flat keyed sampler is staged with the fake key passed AS AN ARGUMENT (so the real sub-key given at
     interpretation time replaces it) and with the site's sample_shape; cached per argument signature"""
@@ -231,6 +231,85 @@ class InitialStyleBind(_NoReplay):
         finally:
             pjax.pe = saved
         yield "abstract_rule_ignores_the_dummy_only_under_modular_vmap", seen == [("a", "b"), ("a", "b")]
+
+
+@contract("genjax.pjax:create_sample_primitive", ["C14", "C07", "C13"])
+class CreateSamplePrimitive(_NoReplay):
+    """history: a bound sampler drawn from SEVERAL times (same and different call signatures).  Every draw binds
+    exactly one equation of the configured primitive through the real initial_style_bind, and the hidden parameters of
+    EVERY such binding carry the modular-vmap-only batch rule (plain jax.vmap raises instead of replicating a draw)
+    and the dedicated lowering exception; the implementation staged is the keyless sampler"""
+
+    cases = ["three_draws"]
+
+    def call(self, case):
+        self.bound = []
+        outer = self
+
+        class FakePP:
+            def __init__(s, prim, **params):
+                s.prim, s.params = prim, params
+
+            def bind(s, *a, **k):
+                outer.bound.append((s, a, k))
+                return ["draw"]
+
+        def fake_stage(f, **params):
+            def wrapped(*a, **k):
+                flat, tree = real_jtu.tree_flatten((a, k) if k else a, is_leaf=lambda x: isinstance(x, (Sym, Tensor)))
+                outer.staged.append(f)
+                o = J.Var("o")
+                closed = J.ClosedJaxpr(J.Jaxpr([], [J.Var("x%d" % i) for i in range(len(flat))], [], [o]), [])
+                return closed, (flat, tree, lambda: real_jtu.tree_structure(0))
+
+            return wrapped
+
+        self.staged = []
+        saved = (pjax.PPPrimitive, pjax.stage)
+        pjax.PPPrimitive, pjax.stage = FakePP, fake_stage
+        pjax._fake_key = Sym(Key.tainted)
+        self.ks = lambda key, *a, sample_shape=(), **k: None
+        self.prim = object()
+        cfg = pjax.SamplerConfig(keyful_sampler=self.ks, name="d", sample_shape=(), primitive=self.prim)
+        self.a, self.b = value("a"), value("b")
+        try:
+            sample = self.real(pjax.create_sample_primitive, cfg)
+            r1 = self.real(sample, self.a, self.b)
+            r2 = self.real(sample, self.b, self.a)  # same call signature again
+            r3 = self.real(sample, self.a, scale=self.b)  # another signature
+            return r1, r2, r3
+        finally:
+            pjax.PPPrimitive, pjax.stage = saved
+
+    def ensures(self, case, path):
+        yield "does_not_raise", path.outcome == "return"
+        if path.outcome != "return":
+            return
+        yield "one_equation_bound_per_draw", len(self.bound) == 3
+        if len(self.bound) != 3:
+            return
+        orig = pjax.create_sample_primitive
+        pjax.create_sample_primitive = lambda cfg: (lambda *a: ("site-result",))
+        try:
+            for n, (pp, a, k) in enumerate(self.bound):
+                p = pp.params
+                yield f"draw{n}:bound_on_the_configured_primitive", pp.prim is self.prim
+                rule = p.get("batch")
+                rejects = False
+                if callable(rule):
+                    try:
+                        rule((value("x"),), (0,))
+                    except NotImplementedError:
+                        rejects = True
+                    except Exception:
+                        rejects = False
+                yield f"draw{n}:batch_rule_is_the_modular_vmap_only_rule", rejects
+                yield f"draw{n}:carries_the_dedicated_lowering_exception", isinstance(p.get("lowering_exception"), pjax.LoweringSamplePrimitiveToMLIRException)
+                yield f"draw{n}:keyed_sampler_and_flat_sampler_attached", p.get("keyful_sampler") is self.ks and p.get("flat_keyful_sampler") is not None
+        finally:
+            pjax.create_sample_primitive = orig
+        yield "operands_of_each_draw_are_its_own_arguments", self.bound[0][1] == (self.a, self.b) and self.bound[1][1] == (self.b, self.a)
+        yield "results_are_the_bound_outputs", all(r == "draw" for r in path.value)
 
 
 @contract("genjax.pjax:sample_binder", ["C13", "C07"])
